@@ -37,6 +37,8 @@ struct Hello {
     no_capabilities: bool,
     /// a second <capabilities> element (with another capability list) follows the first
     dup_capabilities: Option<Vec<String>>,
+    /// an element named `capability` but in a foreign namespace inside <capabilities>, carrying this URI
+    foreign_capability: Option<String>,
     prefix: bool,
     server_waits: bool,
     client_send_stall: usize,
@@ -97,6 +99,11 @@ fn gen_hello(ctx: &mut Ctx) -> Hello {
         2 => vec![],
         _ => caps.clone(),
     });
+    let foreign_capability = ctx.chance(1, 12).then(|| match ctx.pick(3) {
+        0 => CAP_BASE10.to_string(),
+        1 => CAP_BASE11.to_string(),
+        _ => "urn:example:not-a-netconf-capability".to_string(),
+    });
     Hello {
         caps,
         sid,
@@ -104,6 +111,7 @@ fn gen_hello(ctx: &mut Ctx) -> Hello {
         wrong_ns: ctx.chance(1, 16),
         no_capabilities: ctx.chance(1, 16),
         dup_capabilities,
+        foreign_capability,
         prefix: ctx.pick(2) == 1,
         server_waits: ctx.pick(2) == 1,
         client_send_stall: ctx.pick(3),
@@ -115,6 +123,9 @@ fn hello_bytes(h: &Hello) -> Vec<u8> {
     let mut caps = E::new(ns, "capabilities");
     for c in &h.caps {
         caps.push(E::new(ns, "capability").tok(c));
+    }
+    if let Some(f) = &h.foreign_capability {
+        caps.push(E::new("urn:example:vendor-extension", "capability").tok(f));
     }
     let sid_elems: Vec<E> = match &h.sid {
         Sid::Valid(n) => vec![E::new(ns, "session-id").tok(&n.to_string())],
@@ -273,6 +284,11 @@ fn run(ctx: &mut Ctx) -> Verdict {
                 return Verdict::violation("wrong-capabilities", format!("reported {caps:?}, hello carries {want:?}"));
             }
         }
+        Err(_) if h.foreign_capability.is_some() => {
+            // an element of another namespace inside <capabilities> is not a capability; refusing the
+            // hello for it is as acceptable as ignoring it
+            ctx.count("probe.hello_with_foreign_namespace_capability_element");
+        }
         Err(e) => {
             if expect {
                 return Verdict::violation("refused-valid-hello", format!("establishment failed with {e} on hello {h:?}; client advertised {client:?}"));
@@ -289,7 +305,7 @@ pub static C12: PropSpec = PropSpec {
     runs: |t| if t == Tier::Thorough { 20_000_000 } else { 150_000 },
     enumerated: |t| crate::props::c12_tls::count(t),
     run,
-    rule: "seeded: server hellos from the matrix base {1.0, 1.1, both, neither} x other capabilities x session-id {valid incl. 1 and 2^32-1, 0, 2^32, negative, missing, duplicated, zero-padded, non-numeric, empty} x namespace prefix/default x element order x wrong namespace / missing <capabilities> / a second <capabilities> element with another list; the hello is available before the client's hello is accepted, or the server waits for the client hello first; client send back-pressure; permuted scheduling with spurious polls. enumerated: real TLS transport against a peer that uses RFC 6242 chunked framing when both hellos advertise :base:1.1. Non-trivial = the hello should establish a session; distinct = distinct event-log hash",
+    rule: "seeded: server hellos from the matrix base {1.0, 1.1, both, neither} x other capabilities x session-id {valid incl. 1 and 2^32-1, 0, 2^32, negative, missing, duplicated, zero-padded, non-numeric, empty} x namespace prefix/default x element order x wrong namespace / missing <capabilities> / a second <capabilities> element with another list / an element named capability in a foreign namespace (it may be ignored or the hello refused, but it never counts as a capability); the hello is available before the client's hello is accepted, or the server waits for the client hello first; client send back-pressure; permuted scheduling with spurious polls. enumerated: real TLS transport against a peer that uses RFC 6242 chunked framing when both hellos advertise :base:1.1. Non-trivial = the hello should establish a session; distinct = distinct event-log hash",
     components: &[
         ("netconf session.rs, hello.rs, capabilities.rs", "real"),
         ("transport", "seeded part: in-memory stub; enumerated part: real tls.rs over loopback TCP"),
